@@ -38,6 +38,7 @@ def match_known(known, pid, engine, clause, case):
 
 class Result:
     def __init__(self):
+        self.hung = []
         self.evaluations = 0
         self.distinct = set()
         self.distinct_nontrivial = set()
@@ -64,6 +65,8 @@ def consume(res, pid, engine, rows, clause_prefixes, proj):
             res.distinct_nontrivial.add(key)
         if len(res.samples) < 3 and tag not in trivial and res.evaluations % 7 == 1:
             res.samples.append("[%s] %s => %s" % (engine, case, impl))
+        if impl.startswith("harness-timeout:no-answer"):
+            res.hung.append((engine, case, impl, model))
         if impl != model:
             res.full_mismatch += 1
             if res.full_mismatch_first is None:
@@ -259,6 +262,14 @@ def main(argv=None):
 
     # 4. verdict
     monitor_seen = set()
+    if res.hung:
+        # the code under test did not answer within the harness's wall-clock limit on this input (a loop that never ends, a call
+        # that blocks for ever): reported at once; shrinking and searching would only hang again
+        (engine, case, impl, model) = res.hung[0]
+        path = write_replay(pid, engine, seed, "monitor-failure", "no-answer", case, impl, model)
+        violations.append((path, ""))
+        res.monitor_fail = []
+        res.proj_mismatch = []
     for (engine, case, impl, model, clause) in res.monitor_fail:
         k = match_known(known, pid, engine, clause, case)
         if k is not None:
